@@ -174,6 +174,10 @@ type scenario struct {
 	// other on ONE fasthttp.RequestCtx, whose header buffers the next request overwrites (what
 	// fasthttp does per connection; fiber's default Immutable=false hands out strings into them).
 	ReuseCtx bool `json:"reuse_ctx,omitempty"`
+	// ConstResp: every execution answers identically (same shape, values of execution 0), as a
+	// handler does that gives the same answer to the same request. Executions are still told
+	// apart by their handler-entry events; answers no longer identify their execution.
+	ConstResp bool `json:"const_resp,omitempty"`
 }
 
 func (sc *scenario) workers() [][]int {
@@ -217,6 +221,12 @@ func (sc *scenario) desc() string {
 	if sc.ReuseCtx {
 		sb.WriteString(" reusectx")
 	}
+	if sc.ConstResp {
+		sb.WriteString(" constresp")
+	}
+	if sc.Keep != nil {
+		fmt.Fprintf(&sb, " keep%d", len(sc.Keep))
+	}
 	if sc.Workers != nil {
 		fmt.Fprintf(&sb, " workers=%v", sc.Workers)
 	}
@@ -226,6 +236,15 @@ func (sc *scenario) desc() string {
 // keepList is the configured KeepResponseHeaders variant (mixed case on purpose: the middleware
 // documents a list of header names, header names are case-insensitive). X-Drop is not kept.
 var keepList = []string{"x-exec", "X-MULTI", "Set-Cookie", "Content-Type", "X-Comma", "Location"}
+
+// keepNone lists only names no response of this harness carries: the record of an execution is
+// its status and body alone. keepCT keeps the one header every response has. keepEvery lists
+// every name the handlers write.
+var (
+	keepNone  = []string{"X-Absent", "x-never-set"}
+	keepCT    = []string{"content-type"}
+	keepEvery = []string{"X-Exec", "X-Drop", "X-Multi", "Set-Cookie", "Content-Type", "X-Comma", "Location"}
+)
 
 // ---------------------------------------------------------------------------------------------
 // response shapes: every execution n produces values that embed n, so a response identifies
@@ -287,12 +306,27 @@ var shapes = []shape{
 	{name: "api-cookie", status: 200, cookie: true,
 		body: func(n int) []byte { return []byte("cookie-" + strconv.Itoa(n)) },
 		hdr:  func(n int) []drive.H { return []drive.H{h("X-Exec", strconv.Itoa(n))} }},
+	{name: "bare-201", status: 201,
+		body: func(int) []byte { return nil },
+		hdr:  func(n int) []drive.H { return []drive.H{h("X-Exec", strconv.Itoa(n))} }},
+	{name: "empty-404", status: 404,
+		body: func(int) []byte { return nil },
+		hdr:  func(n int) []drive.H { return []drive.H{h("X-Exec", strconv.Itoa(n)), h("X-Drop", "gone")} }},
 	{name: "redirect", status: 303,
 		body: func(int) []byte { return nil },
 		hdr: func(n int) []drive.H {
 			s := strconv.Itoa(n)
 			return []drive.H{h("X-Exec", s), h("Location", "/done/"+s)}
 		}},
+}
+
+func shapeIndex(name string) int {
+	for i, sh := range shapes {
+		if sh.name == name {
+			return i
+		}
+	}
+	panic("harness: unknown shape " + name)
 }
 
 // upstream middleware's constant contribution
@@ -564,6 +598,10 @@ func (r *run) handler(c fiber.Ctx) error {
 		ex.Fail = r.sc.FailFirst && ord == 0
 	}
 	sh := shapes[(r.sc.ShapeBase+n)%len(shapes)]
+	val := n
+	if r.sc.ConstResp {
+		sh, val = shapes[r.sc.ShapeBase%len(shapes)], 0
+	}
 	ex.Shape = sh.name
 	r.clock++
 	ex.Entry = r.clock
@@ -571,15 +609,15 @@ func (r *run) handler(c fiber.Ctx) error {
 	rq.Entries = append(rq.Entries, n)
 	r.yield("handler.entry")
 	if !ex.Fail {
-		ex.status, ex.body, ex.hdr = sh.status, sh.body(n), sh.hdr(n)
+		ex.status, ex.body, ex.hdr = sh.status, sh.body(val), sh.hdr(val)
 		c.Status(ex.status)
 		for _, x := range ex.hdr {
 			c.RequestCtx().Response.Header.Add(x.K, x.V)
 		}
 		if sh.cookie {
 			ex.cookie = true
-			c.Cookie(&fiber.Cookie{Name: "tok", Value: "v" + strconv.Itoa(n), Path: "/p", Expires: time.Unix(2000000000, 0), HTTPOnly: true})
-			c.Cookie(&fiber.Cookie{Name: "tok2", Value: "w" + strconv.Itoa(n), SameSite: "Strict"})
+			c.Cookie(&fiber.Cookie{Name: "tok", Value: "v" + strconv.Itoa(val), Path: "/p", Expires: time.Unix(2000000000, 0), HTTPOnly: true})
+			c.Cookie(&fiber.Cookie{Name: "tok2", Value: "w" + strconv.Itoa(val), SameSite: "Strict"})
 		}
 		switch {
 		case sh.stream:
